@@ -24,6 +24,8 @@ pub enum OpKind {
     CasWeak,
     MutexLock,
     MutexUnlock,
+    /// `try_lock`: never blocks; `ok` in `after` tells whether the lock was taken
+    MutexTryLock,
     RwReadLock,
     RwReadUnlock,
     RwWriteLock,
@@ -266,6 +268,27 @@ pub mod sync {
                 h.after(&op, 0, true);
             }
             Ok(MutexGuard { g: Some(g), addr })
+        }
+        #[track_caller]
+        pub fn try_lock(&self) -> std::sync::TryLockResult<MutexGuard<'_, T>> {
+            let addr = &self.inner as *const _ as usize;
+            let h = current();
+            let op = mk(OpKind::MutexTryLock, addr, Ordering::Acquire, Ordering::Relaxed, 0, 0);
+            if let Some(h) = &h {
+                h.before(&op);
+            }
+            let g = match self.inner.try_lock() {
+                Ok(g) => Some(g),
+                Err(std::sync::TryLockError::Poisoned(e)) => Some(e.into_inner()),
+                Err(std::sync::TryLockError::WouldBlock) => None,
+            };
+            if let Some(h) = &h {
+                h.after(&op, 0, g.is_some());
+            }
+            match g {
+                Some(g) => Ok(MutexGuard { g: Some(g), addr }),
+                None => Err(std::sync::TryLockError::WouldBlock),
+            }
         }
     }
 
